@@ -25,6 +25,7 @@ type HarnessOpts struct {
 	MapOrder  int // 0 insertion order, 1 insertion+reverse, 2 all permutations up to 3 entries
 	PoolAny   bool
 	GlobalRace bool // accesses to package-level variables are scheduling points
+	CallRace   bool // calls of library functions are scheduling points
 	ExprTable bool // expr.Parse answers from the harness table (C15)
 	Tier      int
 }
@@ -195,7 +196,7 @@ func loadEngine(repo string, ov map[string][]byte) (*Engine, error) {
 	e.baseGlobals = map[*ssa.Global]int32{}
 	e.globalIDs = map[int32]bool{}
 	e.setupIntrinsics()
-	for real, model := range map[string]string{"sort.Slice": "vmSortSlice", logPath + "/expr.Parse": "vmExprParse"} {
+	for real, model := range map[string]string{"sort.Slice": "vmSortSlice", logPath + "/expr.Parse": "vmExprParse", "path/filepath.WalkDir": "vmWalkDir"} {
 		if f := e.logPkg.Func(model); f != nil {
 			e.redirects[real] = f
 		}
